@@ -10,6 +10,7 @@ import GoZero.C07.ProofsSFX
 import GoZero.C07.ProofsLCX
 import GoZero.C07.ProofsRM
 import GoZero.C07.ProofsRMX
+import GoZero.C07.ProofsRME
 set_option linter.unusedSimpArgs false
 namespace GoZero.C07
 
@@ -893,10 +894,9 @@ example : ((RM.run (RM.init .doTake) ([(0,2)] ++ List.replicate 9 (0,0))).bind f
 Full statement (as `sf_keys_independent` for SingleFlight): a blocked caller waits only for the holder of a mutex — who
 exists and is enabled — or for the unfinished leader of a flight of its OWN key.  Proven (`rm_keys_independent_partial`,
 with `RM.InvL` of ProofsRMX.lean: a taken flight-group mutex / write lock has a holder inside its critical section): all
-of that for the flight-group mutex, the write lock and `Wait`.  MISSING for the full statement: when the writer at g6 is
-blocked by READERS (`nrd ≠ 0`) the readers are only counted, not identified (`nrd ≠ 0 → ∃ u at p1 / p2 / g1 / g2` needs a
-count over an unbounded set of goroutines); they are always enabled (`rm_critical_section_enabled`).  For the same
-reason there is no `rm_no_deadlock`. -/
+of that for the flight-group mutex, the write lock and `Wait`.  Round 5c: the readers are identified (`RM.Readers`: the counter is the length of a duplicate-free list of exactly the
+goroutines at p1 / p2 / g1 / g2), which gives the full `rm_keys_independent` and `rm_no_deadlock` below;
+`rm_keys_independent_partial` is kept as the lemma they are built on. -/
 theorem rm_blocked_cases {s : RM.St} {t : Tid} {x : Nat} (hb : RM.step s t x = none) :
     ((s.pc t = .l0 ∨ s.pc t = .d0) ∧ s.lock ≠ none) ∨ (s.pc t = .w1 ∧ s.wg (s.reg t) ≠ 0) ∨
     ((s.pc t = .p0 ∨ s.pc t = .g0) ∧ s.rw ≠ none) ∨ (s.pc t = .g6 ∧ ¬(s.rw = none ∧ s.nrd = 0)) := by
@@ -961,6 +961,58 @@ example : (RM.run (RM.init .getResource) (rmDemo.take 16)).map (fun s => (s.pc 1
     = some (.w1, false, true) := by decide
 
 
+/-! ### Round 5c: the full statements (readers identified: `RM.Readers`, `RM.reader_exists` in ProofsRMX.lean) -/
+
+/-- **Who a blocked `GetResource` / `Take` caller waits for** (every `Cfg`; full statement, as `sf_keys_independent`): the
+holder of the flight-group mutex, the writer of the map, or an identified READER of the map — each of whom is inside a
+short critical section and can always take its next step — or, in `Wait`, the leader of a flight *for the same key*
+that has not called `Done` yet.  Calls on other keys are never waited for. -/
+theorem rm_keys_independent {s : RM.St} (h : RM.Reach s) (t : Tid) (x : Nat) (hb : RM.step s t x = none) :
+    (∃ u, s.lock = some u ∧ (s.pc u).holdsLock = true ∧ ∀ y, (RM.step s u y).isSome = true) ∨
+    (s.pc t = .w1 ∧ ∃ u, s.key u = s.key t ∧ (s.pc u).wgOne = true ∧ s.reg u = s.reg t) ∨
+    (∃ u, s.rw = some u ∧ (s.pc u = .g7 ∨ s.pc u = .g8) ∧ ∀ y, (RM.step s u y).isSome = true) ∨
+    (s.pc t = .g6 ∧ ∃ u, (s.pc u).isRd = true ∧ ∀ y, (RM.step s u y).isSome = true) := by
+  rcases rm_keys_independent_partial h t x hb with a | a | a | ⟨hp, _, hn⟩
+  · exact .inl a
+  · exact .inr (.inl a)
+  · exact .inr (.inr (.inl a))
+  · obtain ⟨u, hu⟩ := RM.reader_exists h hn
+    refine .inr (.inr (.inr ⟨hp, u, hu, fun y => rm_critical_section_enabled s u y ?_⟩))
+    revert hu; cases s.pc u <;> simp [RM.PC.isRd]
+
+/-- **No deadlock, no lost wake-up** for `GetResource` and both `Take` users: whenever some call is in progress, some
+goroutine that is inside a call can take a step (for every environment input). -/
+theorem rm_no_deadlock {s : RM.St} (h : RM.Reach s) (t : Tid) (ht : s.pc t ≠ .idle) :
+    ∃ u, s.pc u ≠ .idle ∧ ∀ y, (RM.step s u y).isSome = true := by
+  have indep : ∀ u y z, (RM.step s u y).isSome = true → (RM.step s u z).isSome = true := by
+    intro u y z
+    unfold RM.step
+    cases s.pc u <;> simp <;> (try split) <;> (try split) <;> simp
+  -- a blocked goroutine either has an enabled goroutine to wait for, or waits (in `Wait`) for a leader past `Add`
+  have blocked : ∀ v, RM.step s v 0 = none →
+      (∃ u, s.pc u ≠ .idle ∧ ∀ y, (RM.step s u y).isSome = true) ∨ (s.pc v = .w1 ∧ ∃ u, (s.pc u).wgOne = true) := by
+    intro v hv
+    rcases rm_keys_independent h v 0 hv with ⟨u, _, hh, he⟩ | ⟨hp, u, _, hw, _⟩ | ⟨u, _, hh, he⟩ | ⟨_, u, hh, he⟩
+    · exact .inl ⟨u, by revert hh; cases s.pc u <;> simp [RM.PC.holdsLock], he⟩
+    · exact .inr ⟨hp, u, hw⟩
+    · exact .inl ⟨u, by rcases hh with hh | hh <;> simp [hh], he⟩
+    · exact .inl ⟨u, by revert hh; cases s.pc u <;> simp [RM.PC.isRd], he⟩
+  cases hst : RM.step s t 0 with
+  | some s' => exact ⟨t, ht, fun y => indep t 0 y (by simp [hst])⟩
+  | none =>
+    rcases blocked t hst with a | ⟨_, u, hw⟩
+    · exact a
+    · cases hsu : RM.step s u 0 with
+      | some s' => exact ⟨u, by revert hw; cases s.pc u <;> simp [RM.PC.wgOne], fun y => indep u 0 y (by simp [hsu])⟩
+      | none =>
+        rcases blocked u hsu with a | ⟨hp, _⟩
+        · exact a
+        · rw [hp] at hw; simp [RM.PC.wgOne] at hw
+
+/-- non-vacuity: goroutine 1 waits for goroutine 0's flight; goroutine 0 (inside `create`) is enabled. -/
+example : (RM.run (RM.init .getResource) (rmDemo.take 16)).map
+    (fun s => (s.pc 1, (RM.step s 1 0).isSome, s.pc 0, (RM.step s 0 0).isSome)) = some (.w1, false, .g5, true) := by decide
+
 /-! ### Round 5: `ResourceManager.Inject` inside the theorems (`RM.ReachI`: calls and registrations — a registration while
 no call is in progress, of a key that holds nothing, with a non-nil resource; this is how mon's `Inject` test hook is
 used and how the correspondence runs pre-register resources) -/
@@ -1006,5 +1058,94 @@ theorem rm_injected_is_handed_out {s s1 s2 : RM.St} {k : Key} {v : Val} (h : RM.
   refine ⟨hn, by rw [hin, hs1.2], fun r hr hrk hrv => ?_⟩
   have := (rm_inject_same_instance h2 r hr hrv).2
   rw [this, hrk, hin, hs1.2]
+
+
+/-! ### Round 5c: expiry / eviction / Del (`RM.evict`, `RM.ReachE`: calls and evictions in any order)
+
+An entry may disappear at any time the map's lock is free — `collection.Cache.Del`, the timing wheel's expiry, lru
+eviction, `cacheNode.Del`, a redis TTL.  The FLIGHT part of the invariant (`RM.InvF`, ProofsRME.lean) survives it, so the
+flight group never becomes a second cache: **never a retained result** — whatever is evicted between a flight's end
+and the next call, a caller that does not find the entry in the map is handed the result of an execution of a flight
+that is registered (its leader inside it) while the caller is inside its own call; an entry of the flight group exists
+only while its leader is inside that very flight.  NOT re-established under eviction (stated per epoch only in the ghost
+field `ncreate`, which `evict` resets): the map part — "at most one successful load per key and epoch" and "everyone
+gets the epoch's instance" (a caller that read the entry just before it was evicted legitimately returns the old
+instance). -/
+
+/-- with evictions, too: what a call returns from a flight is what the single execution of that flight's closure
+returned, and that flight was for the caller's key. -/
+theorem rm_evict_result_is_execution {s : RM.St} (h : RM.ReachE s) (r : RRet) (hr : r ∈ s.rets) (hd : r.direct = false) :
+    r.exec < s.next ∧ s.fnres r.exec = some r.val ∧ s.ekey r.exec = r.key :=
+  (RM.invF_reachE h).rets r hr hd
+
+/-- … the flight group holds an entry only while its leader is inside that very flight (so a flight that has ended can
+not be joined: the next caller registers a flight of its own and runs the closure — lookup, and on a miss the loader —
+again), … -/
+theorem rm_evict_cleanup {s : RM.St} (h : RM.ReachE s) (k : Key) (c : CallId) (hc : s.calls k = some c) :
+    c < s.next ∧ s.ekey c = k ∧ (s.pc (s.leader c)).inFlight = true ∧ s.reg (s.leader c) = c :=
+  (RM.invF_reachE h).calls k c hc
+
+/-- … a joiner only ever waits for / reads a flight that was published for its own key, … -/
+theorem rm_evict_joins_own_key {s : RM.St} (h : RM.ReachE s) (u : Tid) (hu : (s.pc u).waits = true) :
+    s.ekey (s.reg u) = s.key u ∧ RM.published s (s.reg u) :=
+  ⟨((RM.invF_reachE h).waits u hu).2.1, ((RM.invF_reachE h).waits u hu).2.2⟩
+
+/-- … and when no call is in progress the flight group is empty, whatever was loaded or evicted before. -/
+theorem rm_evict_quiescent_clean {s : RM.St} (h : RM.ReachE s) (hq : ∀ t, s.pc t = .idle) (k : Key) : s.calls k = none := by
+  cases hc : s.calls k with
+  | none => rfl
+  | some c =>
+    have := (rm_evict_cleanup h k c hc).2.2.1
+    rw [hq] at this
+    simp [RM.PC.inFlight] at this
+
+/-- an eviction starts a new epoch of the key: nothing stored, no load counted. -/
+theorem rm_evict_new_epoch {s s' : RM.St} {k : Key} (hs : RM.evict s k = some s') :
+    s'.res k = none ∧ s'.ncreate k = 0 ∧ s'.calls = s.calls ∧ s'.cval = s.cval := by
+  unfold RM.evict at hs
+  split at hs
+  · simp at hs; subst hs; simp [upd]
+  · simp at hs
+
+/-- non-vacuity (`cacheNode.doTake` / `Cache.Take` alike): goroutine 0 loads 9 for key 2; the entry is evicted; goroutine
+1's call — started after the first flight ended — finds nothing retained, runs the loader AGAIN (it returns 11) and is
+handed 11, not 9. -/
+def evictDemo1 : List (Tid × Nat) := [(0,2)] ++ List.replicate 11 (0,0) ++ [(0,9)] ++ List.replicate 9 (0,0)
+def evictDemo2 : List (Tid × Nat) := [(1,2)] ++ List.replicate 11 (1,0) ++ [(1,11)] ++ List.replicate 9 (1,0)
+
+example : (((RM.run (RM.init .doTake) evictDemo1).bind fun s => RM.evict s 2).bind fun s => RM.run s evictDemo2).map
+    (fun s => (s.rets.map fun r => (r.tid, r.key, r.val), s.res 2, s.ncreate 2, (s.calls 2).isNone))
+    = some ([(1, 2, 11), (0, 2, 9)], some 11, 1, true) := by decide
+
+
+/-! ### Round 5c: a loader that returns `(nil, nil)` — what the code does (`RM.nilInst`)
+
+The nil instance is stored and shared like any instance (so every `rm_*` theorem covers it: one load, everyone "gets"
+it); users that assert the type after the flight (`Cfg.asrt`: `GetResource`, `doTake`) panic instead of returning it —
+leader, joiners and, because the key now holds it, every later caller: the key is poisoned; `collection.Cache.Take`
+hands `(nil, nil)` to everyone. -/
+
+theorem rm_nil_leader_panics (s : RM.St) (t : Tid) (x : Nat) (hpc : s.pc t = .r0) (hv : s.cval (s.reg t) = RM.nilInst)
+    (ha : s.cfg.asrt = true) : (RM.step s t x).map (fun s' => (s'.pc t, s'.rets)) = some (.idle, s.rets) := by
+  unfold RM.step; rw [hpc]; simp [hv, ha, upd]
+
+theorem rm_nil_joiner_panics (s : RM.St) (t : Tid) (x : Nat) (hpc : s.pc t = .w2) (hv : s.cval (s.reg t) = RM.nilInst)
+    (ha : s.cfg.asrt = true) : (RM.step s t x).map (fun s' => (s'.pc t, s'.rets)) = some (.idle, s.rets) := by
+  unfold RM.step; rw [hpc]; simp [hv, ha, upd]
+
+theorem rm_nil_returned_without_assertion (s : RM.St) (t : Tid) (x : Nat) (hpc : s.pc t = .r0)
+    (hv : s.cval (s.reg t) = RM.nilInst) (ha : s.cfg.asrt = false) :
+    ((RM.step s t x).bind (·.rets.head?)).map (·.val) = some RM.nilInst := by
+  unfold RM.step; rw [hpc]; simp [hv, ha]
+
+/-- the poisoned key (`GetResource`): goroutine 0's `create` returns `(nil, nil)` — it is stored, goroutine 0 panics;
+goroutine 1 comes later, finds the nil instance in the map and panics, too: nobody ever returns. -/
+example : (RM.run (RM.init .getResource) ([(0,2)] ++ List.replicate 11 (0,0) ++ [(0,1)] ++ List.replicate 9 (0,0) ++
+    [(1,2)] ++ List.replicate 16 (1,0))).map (fun s => (s.rets.length, s.res 2, s.ncreate 2, s.pc 0, s.pc 1))
+    = some (0, some 1, 1, .idle, .idle) := by decide
+/-- `collection.Cache.Take`: the same schedule hands the nil value to both. -/
+example : (RM.run (RM.init .cacheTake) ([(0,2)] ++ List.replicate 15 (0,0) ++ [(0,1)] ++ List.replicate 9 (0,0) ++
+    [(1,2)] ++ List.replicate 4 (1,0))).map (fun s => (s.rets.map fun r => (r.tid, r.val, r.direct), s.res 2))
+    = some ([(1, 1, true), (0, 1, false)], some 1) := by decide
 
 end GoZero.C07
